@@ -56,7 +56,8 @@ func scalarValues(fd protoreflect.FieldDescriptor, reduced bool) []protoreflect.
 			vs = append(vs, protoreflect.ValueOfUint64(x))
 		}
 	case protoreflect.StringKind:
-		for _, x := range []string{"a", "", "héllo 世界", strings.Repeat("x", 200)} {
+		// (valid UTF-8 only; incl. the replacement character, the last code point, a NUL and a 4-byte rune)
+		for _, x := range []string{"a", "", "héllo 世界", "\ufffd-\U0010ffff-\x00-\U0001f600", strings.Repeat("x", 200)} {
 			vs = append(vs, protoreflect.ValueOfString(x))
 		}
 	case protoreflect.BytesKind:
